@@ -1,5 +1,6 @@
 use crate::{rng::Rng, Emit};
 pub mod c02;
+pub mod c03;
 pub mod c05;
 pub mod c09;
 pub mod c15;
@@ -12,6 +13,7 @@ pub fn eval(op: &str, args: &[&str]) -> Option<String> {
     let prop = prop.split('.').next().unwrap_or("");
     match prop {
         "c02" => c02::eval(op, args),
+        "c03" | "c04" | "c10" => c03::eval(op, args),
         "c05" => c05::eval(op, args),
         "c09" => c09::eval(op, args),
         "c15" => c15::eval(op, args),
@@ -23,6 +25,7 @@ pub fn eval(op: &str, args: &[&str]) -> Option<String> {
 pub fn generate(prop: &str, thorough: bool, rng: &mut Rng, em: &mut Emit) {
     match prop {
         "C02" => c02::generate(thorough, rng, em),
+        "C03" | "C04" | "C10" => c03::generate(prop, thorough, rng, em),
         "C05" => c05::generate(thorough, rng, em),
         "C09" => c09::generate(thorough, rng, em),
         "C15" => c15::generate(thorough, rng, em),
